@@ -2244,8 +2244,10 @@ func (p *Parser) gotStmtPipe(s *Stmt, binCmd bool) *Stmt {
 		// TODO(zsh): { try-list } "always" { always-list }
 		case "}":
 			p.curErr(`%#q can only be used to close a block`, rightBrace)
-		case "then", "elif":
+		case "then", "elif", "else":
 			p.curErr("%#q can only be used in an `if`", p.val)
+		case "in":
+			p.curErr("%#q can only be used in a `for` or a `case`", p.val)
 		case "fi":
 			p.curErr("%#q can only be used to end an `if`", p.val)
 		case "do":
